@@ -59,6 +59,13 @@ def cases(tier, seed):
                     step = 3 if N >= 16 else len(ks)
                     for i in range(0, len(ks), step):
                         yield f"C11|bp|N={N},{regime},fz={int(fz)},k={ks[i]}..", {"kind": "bp", "N": N, "ks": ks[i:i + step], "fz": fz, "regime": regime, "tier": tier}
+    if q:
+        # high-rate codes of longer length: long check-node chains drive the message LLRs of the BP decoder towards 0 (cheap, clean clause only)
+        for N in (32, 64):
+            for regime in ("sum_product", "min_sum"):
+                for fz in (True, False):
+                    yield f"C11|bp|N={N},{regime},fz={int(fz)},high-rate", {"kind": "bp", "N": N, "ks": [N - 1, N - 2, N // 2], "fz": fz, "regime": regime, "tier": tier}
+                    yield f"C11|sc|N={N},{regime},fz={int(fz)},pi=0,high-rate", {"kind": "sc", "N": N, "ks": [N - 1, N - 2, N // 2], "fz": fz, "pi": False, "regime": regime, "tier": tier}
     for N in (2, 4, 8, 16):
         for regime in ("sum_product", "min_sum"):
             for pi in (False, True):
